@@ -76,6 +76,6 @@ Undetermined == NIf >= 2 \/ (u1 = 2 /\ FALSE)
 
 (* model-level properties of the machine on the whole family *)
 Idempotent == Paren(Toks) # "SYNTAX" => TRUE
-Emit == PrintT("CASE " \o ToJson([src |-> Source(Toks), paren |-> Paren(Toks), undet |-> Undetermined,
+Emit == PrintT("CASE " \o ToJson([src |-> Source(Toks), paren |-> Paren(Toks), ast |-> AstText(Toks), undet |-> Undetermined,
                                   j |-> j, c |-> <<c1, c2, c3>>, u |-> <<u1, u2, u3>>]))
 =============================================================================
